@@ -38,6 +38,10 @@ IMPORTS = ("From Coq Require Import ZArith List Bool.\n"
            "From IPV8V Require Import lib.PyErr model.M08_handshake model.M08_toy.\n"
            "Import ListNotations.\nOpen Scope Z_scope.\n")
 CTYPE = "(@node Toy * @event Toy) * out Toy"
+IMPORTS_GEN = ("From Coq Require Import ZArith List Bool.\n"
+               "From IPV8V Require Import lib.PyErr model.M08_handshake model.M08_toy model.M08_rt model.M08_handshake_gen.\n"
+               "Import ListNotations.\nOpen Scope Z_scope.\n")
+CTYPE_GEN = "(@node Toy * @event Toy * genv) * out Toy"
 NULL = ("0.0.0.0", 0)
 
 FIELD_KINDS = ["flip_ident", "flip_key", "flip_auth", "flip_cands", "flip_cid", "subst_eph", "fake_responder",
@@ -300,7 +304,7 @@ def keybytes(sk):
 # -------------------------------------------------------------------------------------- instrumented network
 class Rec:
     __slots__ = ("node", "kind", "pre", "ev", "post", "acts", "exc", "rm", "payload", "snap_pre", "snap_post",
-                 "added", "gen0", "adds", "choice", "known", "open", "bad", "cid", "src", "extra")
+                 "added", "gen0", "adds", "choice", "known", "open", "bad", "cid", "src", "extra", "env")
 
     def __init__(self, node, kind):
         self.node, self.kind = node, kind
@@ -310,7 +314,7 @@ class Rec:
         self.snap_pre, self.snap_post, self.gen0 = {}, {}, 0
         self.known = ()
         self.open, self.bad = True, False
-        self.cid = self.src = self.extra = None
+        self.cid = self.src = self.extra = self.env = None
 
 
 class Net(TunnelNet):
@@ -337,6 +341,9 @@ class Net(TunnelNet):
         r.snap_pre = snapshot(ov)
         r.gen0 = len(self.sym.keyobjs)
         try:
+            r.env = (list(ov.get_candidates(2, 1)), list(ov.get_candidates(1)),
+                     {bytes(p.public_key.key_to_bin()): list(fl or []) for p, fl in ov.candidates.items()},
+                     ov.settings.circuit_timeout, ov.settings.next_hop_timeout)
             r.pre = alpha(self.sym, ov)
         except Exception as e:   # noqa: the abstraction must never disturb the node under observation
             r.bad = True
@@ -1322,7 +1329,7 @@ def cases_of(net):
     sym = net.sym
     out = []
     for r in net.recs:
-        if r.bad or r.pre is None or r.post is None:
+        if r.bad or r.pre is None or r.post is None or r.env is None:
             continue
         ov = net.nodes[r.node]
         if r.kind == "msg":
@@ -1341,7 +1348,13 @@ def cases_of(net):
             ev = "EvPurge (C:=Toy) %d" % sym.cid(r.cid)
         else:
             continue
-        out.append(("(%s, %s)" % (r.pre, ev), net.expected(r), r.kind + ":" + (type(r.payload).__name__ if r.kind == "msg" else "")))
+        c21, c1, flags, tc, th = r.env
+        genv = "(mkGenv %s %s %s %s %d %d)" % (
+            lst(a_peer(sym, p) for p in c21), lst(a_peer(sym, p) for p in c1),
+            lst("(%s, %s)" % (z(sym.pkbin_id(k)), lst(str(f) for f in fl)) for k, fl in flags.items()),
+            opt(a_peer(sym, r.choice) if r.choice is not None and r.kind != "new" else None), tc, th)
+        out.append(("(%s, %s)" % (r.pre, ev), net.expected(r), r.kind + ":" + (type(r.payload).__name__ if r.kind == "msg" else ""),
+                    genv))
     return out
 
 
@@ -1396,6 +1409,22 @@ def make_sweep(index, byte, bit):
     return f
 
 
+def translate(ctx):
+    """stage G: regenerate coq/gen/G08_handshake.v from the source; fail closed"""
+    from tools.tr import tr_expr, tr_handshake
+    try:
+        text = tr_handshake.write()
+    except tr_expr.Unsupported as e:
+        ctx.broke("translator tr_handshake aborted", e)
+        return None
+    except Exception as e:   # noqa
+        ctx.broke("translator tr_handshake crashed", repr(e))
+        return None
+    import hashlib
+    ctx.extra["translator_output_sha256"] = hashlib.sha256(text.encode()).hexdigest()
+    return text
+
+
 def run(ctx):
     import multiprocessing
     corpus = os.path.join(os.path.dirname(os.path.dirname(os.path.dirname(os.path.abspath(__file__)))), "corpus", "C08")
@@ -1406,7 +1435,9 @@ def run(ctx):
                 viol, _, _ = execute(tuple(w["spec"]), w.get("seed", 1))
                 for k, what in viol:
                     ctx.violation(k, "corpus %s: %s" % (f, what), {"spec": w["spec"], "seed": w.get("seed", 1)})
+    xtext = translate(ctx)
     ctx.proofs()
+    xproofs = ctx.proofs(part="C08x") if xtext is not None else False
     all_cases, seen = [], set()
     dist = {}
     n_scen = fired = accepts = escaped = interleaved = 0
@@ -1439,11 +1470,11 @@ def run(ctx):
             ctx.violation(k, what, {"spec": list(spec), "seed": ctx.seed, "sweep": list(sweep) if sweep else None})
         nontrivial = stats["fired"] > 0 or spec[3] in ("none", "sweep", "fallback_exits")
         ctx.count("%s/%s/%d/%d" % (spec[3], spec[1], spec[0], spec[2]), nontrivial=nontrivial)
-        for c, e, label in cases:
-            key = (c, e)
+        for c, e, label, genv in cases:
+            key = (c, e, genv)
             if key not in seen:
                 seen.add(key)
-                all_cases.append((c, e, label, spec))
+                all_cases.append((c, e, label, spec, genv))
         if n_scen <= 3:
             ctx.sample({"spec": list(spec), "handler_runs": stats["recs"], "hops_appended": stats["accepts"],
                         "attack_fired": stats["fired"], "ready": stats["ready"]})
@@ -1451,7 +1482,7 @@ def run(ctx):
     ctx.extra["interleaved_records_skipped"] = interleaved
     ctx.coverage["traces_validated_against_impl"] += n_scen
     labels = {}
-    for _, _, l, _ in all_cases:
+    for _, _, l, _, _ in all_cases:
         labels[l] = labels.get(l, 0) + 1
     ctx.extra["scenarios"] = n_scen
     ctx.extra["scenarios_by_kind"] = dist
@@ -1461,18 +1492,33 @@ def run(ctx):
     ctx.extra["lockstep_cases_by_event"] = labels
     cap = 1200 if ctx.quick else 12000
     sel = all_cases if len(all_cases) <= cap else ctx.rng("cap").sample(all_cases, cap)
-    mism, errors = coqrun.eval_mismatches(IMPORTS, "run_case", "out_eqb", [(c, e) for c, e, _, _ in sel],
+    mism, errors = coqrun.eval_mismatches(IMPORTS, "run_case", "out_eqb", [(c, e) for c, e, _, _, _ in sel],
                                           os.path.join(ctx.scratch, "ls"), ctype=CTYPE, shard=120, jobs=12,
                                           max_bytes=250000)
     for e in errors[:3]:
         ctx.broke("correspondence: Coq evaluation failed", e)
     for i in mism[:10]:
-        c, e, label, spec = sel[i]
+        c, e, label, spec, _ = sel[i]
         got = coqrun.eval_terms(IMPORTS, ["run_case %s" % c], os.path.join(ctx.scratch, "mm"))
         ctx.broke("correspondence: model and implementation disagree on %s in scenario %s" % (label, list(spec)),
                   "case: %s\nimplementation: %s\nmodel: %s" % (c, e, got[-3000:]))
     for _ in sel:
         ctx.coverage["evaluations"] += 1
+    # the same observed handler runs on the functions TRANSLATED from the source, evaluated inside Coq
+    if xtext is not None and xproofs:
+        gsel = sel if len(sel) <= (600 if ctx.quick else 6000) else ctx.rng("gcap").sample(sel, 600 if ctx.quick else 6000)
+        gcases = [("%s, %s)" % (c[:-1], g), e) for c, e, _, _, g in gsel]
+        gm, gerr = coqrun.eval_mismatches(IMPORTS_GEN, "run_case_gen", "out_eqb", gcases, os.path.join(ctx.scratch, "lsg"),
+                                          ctype=CTYPE_GEN, shard=120, jobs=12, max_bytes=250000)
+        for e in gerr[:3]:
+            ctx.broke("correspondence (translated functions): Coq evaluation failed", e)
+        for i in gm[:10]:
+            c, e, label, spec, g = gsel[i]
+            got = coqrun.eval_terms(IMPORTS_GEN, ["run_case_gen %s, %s)" % (c[:-1], g)], os.path.join(ctx.scratch, "mmg"))
+            ctx.broke("correspondence: functions translated from the source and implementation disagree on %s in scenario %s"
+                      % (label, list(spec)), "case: %s\nenvironment: %s\nimplementation: %s\ntranslated: %s" % (c, g, e, got[-3000:]))
+        ctx.coverage["evaluations"] += len(gsel)
+        ctx.extra["translated_function_cases"] = len(gsel)
     ctx.coverage["rule"] = ("lockstep: M08_handshake.step on alpha(real node state before) = alpha(state after), cells sent, "
                             "exception class, for every handshake handler / create_circuit / retry timeout / remove_circuit run "
                             "of every node in every scripted adversarial build; independent oracle on the observed hop lists, "
